@@ -1,6 +1,6 @@
 (* C41 — obligations on the generated schema, the oracle theorem, refutations. *)
 From Coq Require Import List ZArith Bool String Lia.
-From OV Require Import C41.Schema Gen.C41Schema C41.SchemaProofs C41.Model.
+From OV Require Import C41.Schema Gen.C41Schema C41.SchemaProofs C41.Erase C41.Model.
 Import ListNotations.
 Open Scope list_scope.
 Open Scope Z_scope.
@@ -81,6 +81,17 @@ Proof.
   exists y. split; [exact Hy|]. apply (roundtrip cfg_schema gen_schema_ok FUEL _ _ _ Hty Hwt Hy).
 Qed.
 
+(* ... and ANY well-formed configuration, whatever its skipped fields hold, is read back with exactly
+   the skipped fields (the thumbprint caches) reset *)
+Theorem save_load_erases c : wt cfg_schema false FUEL (root c) (c_val c) = true ->
+  exists y, ser cfg_schema FUEL (root c) (c_val c) = Some y /\
+            de cfg_schema FUEL (root c) y = Some (erase cfg_schema FUEL (root c) (c_val c)).
+Proof.
+  intro Hwt. destruct (root_ok c) as [Hty Hno].
+  destruct (ser_total cfg_schema gen_schema_ok false FUEL (root c) (c_val c) Hwt Hno) as [y Hy].
+  exists y. split; [exact Hy|]. apply (reload_is_erase cfg_schema gen_schema_ok FUEL _ _ _ Hty Hwt Hy).
+Qed.
+
 Theorem oracle_holds c : valid c -> known c = 0 -> oracle c (run c) = true.
 Proof.
   unfold valid, known. intros Hin Hk. unfold oracle. rewrite Hin. cbn [negb].
@@ -126,6 +137,12 @@ Definition server0 (pki tp : val) : val :=
       VM [(zs "none", VR [s "/"; s "None"; s "None"; VZ 0; VO None; VL [s "ANONYMOUS"; s "u1"]])]].
 
 Definition w_thumb : case := mk_case 1 (server0 (s "pki") (VO (Some (VL [VZ 7; VZ 7])))) true.
+(* the witness of known finding 1: what comes back is the configuration with the cache cleared; it is
+   a valid configuration *)
+Example thumb_reload :
+  erase cfg_schema FUEL (root w_thumb) (c_val w_thumb) = server0 (s "pki") (VO None) /\
+  is_valid_m 1 (server0 (s "pki") (VO None)) = true.
+Proof. split; vm_compute; reflexivity. Qed.
 Lemma known_1_refuted : exists c, known c = 1 /\ valid c /\ oracle c (run c) = false.
 Proof. exists w_thumb. repeat split; vm_compute; reflexivity. Qed.
 
